@@ -20,6 +20,8 @@
 import CelloProofs.Lemmas.RBStore
 import CelloProofs.Lemmas.RBHeight
 import CelloProofs.Lemmas.RBCheck
+import CelloProofs.Lemmas.RBArgs
+import CelloProofs.Lemmas.RBOrder
 
 namespace Cello.RB
 open Std
@@ -85,6 +87,15 @@ theorem C03_source_as_modelled :
     CelloGen.Tree.shape = CelloGen.Tree.shapeModelled :=
   ⟨rfl, rfl, rfl⟩
 
+/-- **`String_Assign` of the source as it is now** (src/String.c, fix 744a45f): between `char* val = c_str(obj);` and the
+    `realloc` of the buffer stands `if (val is s->val) { return; }`, and nothing else returns there.  `Tree_Set` on a present
+    key assigns the stored key and the stored value in place, so `set(t, k, …)` with `k` handed out by `foreach (k in t)` and
+    `set(t, k, get(t, k))` make a stored String the source of its own assignment; with this test that is a no-op
+    (`C03_own_objects_refine`), without it the `strcpy` reads the block `realloc` released (`C03_set_own_string_old_refuted`). -/
+theorem C03_string_assign_current_source :
+    CelloGen.Tree.stringAssignGuards = ["val is s->val"] ∧ CelloGen.Tree.stringAssignGuardsSelf = true :=
+  ⟨rfl, rfl⟩
+
 /-- everything the refinement proof uses of the generated data -/
 theorem C03_current_source : SourceOk :=
   ⟨C03_layout_current_source.1, C03_descent_current_source, C03_assign_current_source.2⟩
@@ -95,11 +106,11 @@ theorem C03_current_source : SourceOk :=
 example :
     let y : Lay := ⟨3, 1, 3⟩
     (y.keyHdrOff, y.keyOff, y.valHdrOff, y.valOff, y.entryLen, y.moveLen) = (0, 3, 4, 7, 10, 10) ∧
-    entryWords y (Key.i 14, ([14, 15, 16] : Val)) =
+    entryWords y (Key.i 14, (.w 14 15 [16] : Val)) =
       [.hdr true, .hdr true, .hdr true, .int 14, .hdr false, .hdr false, .hdr false, .int 14, .int 15, .int 16] ∧
-    find (orient ⟨true, .right, .left⟩ Key.cmp) (T.node .B (T.node .R .nil (.i 2) [20] .nil) (.i 1) ([10] : Val) .nil) (.i 2) = none ∧
-    find (orient CelloGen.Tree.getDescent Key.cmp) (T.node .B (T.node .R .nil (.i 2) [20] .nil) (.i 1) ([10] : Val) .nil) (.i 2)
-      = some [20] := by
+    find (orient ⟨true, .right, .left⟩ Key.cmp) (T.node .B (T.node .R .nil (.i 2) (.i 20) .nil) (.i 1) (.i 10 : Val) .nil) (.i 2) = none ∧
+    find (orient CelloGen.Tree.getDescent Key.cmp) (T.node .B (T.node .R .nil (.i 2) (.i 20) .nil) (.i 1) (.i 10 : Val) .nil) (.i 2)
+      = some (.i 20) := by
   decide
 
 /-- **C03 (T1), refinement.** For every comparison that is a lawful order and every history of
@@ -296,25 +307,25 @@ theorem C03_op_files (ops : List (Op Key Val)) (hty : WellTyped [] ops) :
     updates, removals of nodes with two children (predecessor relocation of 24-byte values past 8-byte keys, and of 24-byte
     keys past 8-byte values), KeyError, assign (also of a tree to itself) and copy is well typed and runs -/
 example :
-    let m : Tree Key Val := ⟨.node .B (.node .B .nil (.i 7) [70, 71, 72] .nil) (.i 5) [50, 51, 52]
-                               (.node .B .nil (.i 3) [30, 31, 32] (.node .R .nil (.i 1) [10, 11, 12] .nil)), 4, 8, 24⟩
+    let m : Tree Key Val := ⟨.node .B (.node .B .nil (.i 7) (.w 70 71 [72]) .nil) (.i 5) (.w 50 51 [52])
+                               (.node .B .nil (.i 3) (.w 30 31 [32]) (.node .R .nil (.i 1) (.w 10 11 [12]) .nil)), 4, 8, 24⟩
     Valid Key.cmp m ∧
-      Tree.new Key.cmp 8 24 [(.i 5, [50, 51, 52]), (.i 3, [30, 31, 32]), (.i 7, [70, 71, 72]), (.i 1, [10, 11, 12])]
+      Tree.new Key.cmp 8 24 [(.i 5, (.w 50 51 [52])), (.i 3, (.w 30 31 [32])), (.i 7, (.w 70 71 [72])), (.i 1, (.w 10 11 [12]))]
         = some m := by
   refine ⟨(validB_iff _).mp (by decide), by decide⟩
 
 example :
     let ops : List (Op Key Val) :=
-      [.new 0 8 24 [(.i 5, [50, 51, 52]), (.i 3, [30, 31, 32]), (.i 7, [70, 71, 72]), (.i 1, [10, 11, 12])],
-       .set 0 (.i 5) [55, 56, 57], .rem 0 (.i 5), .rem 0 (.i 9), .get 0 (.i 3),
+      [.new 0 8 24 [(.i 5, (.w 50 51 [52])), (.i 3, (.w 30 31 [32])), (.i 7, (.w 70 71 [72])), (.i 1, (.w 10 11 [12]))],
+       .set 0 (.i 5) (.w 55 56 [57]), .rem 0 (.i 5), .rem 0 (.i 9), .get 0 (.i 3),
        .new 1 8 8 [], .assign 1 0, .copy 2 1, .rem 2 (.i 7), .iter 0, .riter 2, .len 1, .get 2 (.i 7),
-       .new 3 24 8 [(.w 1 2 [3], [1]), (.w 1 2 [4], [2]), (.w 0 9 [9], [3])], .rem 3 (.w 1 2 [3]), .assign 3 3, .iter 3]
+       .new 3 24 8 [(.w 1 2 [3], .i 1), (.w 1 2 [4], .i 2), (.w 0 9 [9], .i 3)], .rem 3 (.w 1 2 [3]), .assign 3 3, .iter 3]
     WellTyped [] ops ∧
     (run Key.cmp [] ops).map (·.2) = some
-      [.done, .done, .done, .err .KeyError, .val [30, 31, 32], .done, .done, .done, .done,
-       .items [(.i 7, [70, 71, 72]), (.i 3, [30, 31, 32]), (.i 1, [10, 11, 12])] true,
-       .items [(.i 1, [10, 11, 12]), (.i 3, [30, 31, 32])] true, .nat 3,
-       .err .KeyError, .done, .done, .done, .items [(.w 1 2 [4], [2]), (.w 0 9 [9], [3])] true] := by
+      [.done, .done, .done, .err .KeyError, .val (.w 30 31 [32]), .done, .done, .done, .done,
+       .items [(.i 7, (.w 70 71 [72])), (.i 3, (.w 30 31 [32])), (.i 1, (.w 10 11 [12]))] true,
+       .items [(.i 1, (.w 10 11 [12])), (.i 3, (.w 30 31 [32]))] true, .nat 3,
+       .err .KeyError, .done, .done, .done, .items [(.w 1 2 [4], .i 2), (.w 0 9 [9], .i 3)] true] := by
   refine ⟨wellTypedB_sound _ _ (by decide), by decide⟩
 
 /-- the relocation on concrete bytes: Int key, 24-byte value, 24-byte header. The block Tree.c moves carries the whole
@@ -322,12 +333,131 @@ example :
     followed by the removed entry's second and third. -/
 example :
     let y : Lay := ⟨3, 1, 3⟩
-    relocate y ((Key.i 14, ([14, 14007, -14000042] : Val))) ((Key.i 15, ([15, 15007, -15000042] : Val)))
-        = some (Key.i 15, [15, 15007, -15000042]) ∧
+    relocate y ((Key.i 14, (.w 14 14007 [-14000042] : Val))) ((Key.i 15, (.w 15 15007 [-15000042] : Val)))
+        = some (Key.i 15, (.w 15 15007 [-15000042])) ∧
       intsOf (valAt y (memcpyW (y.hdr + y.ks + y.hdr + y.ks)
-          (entryWords y (Key.i 14, ([14, 14007, -14000042] : Val)))
-          (entryWords y (Key.i 15, ([15, 15007, -15000042] : Val))))) = some [15, 14007, -14000042] := by
+          (entryWords y (Key.i 14, (.w 14 14007 [-14000042] : Val)))
+          (entryWords y (Key.i 15, (.w 15 15007 [-15000042] : Val))))) = some [15, 14007, -14000042] := by
   decide
+
+/-! ### the tree's own objects as arguments; assignment from a map that is not a Tree; the odd-count constructor -/
+
+/-- **C03, second layer.** Histories over all operations of `C03_refines_ordered_map` and, in addition,
+    * `set(t, K, V)` where `K` is the key object stored in the tree itself (what `foreach (k in t)` hands out) and / or `V` is the
+      value object `get(t, k')` returns — a pointer into a node of the same tree (the node `Tree_Set` stops at, or another one);
+      `get` / `mem` / `rem` given the tree's own key object (for `rem`: the argument lives in the node that is removed),
+    * `assign(t, obj)` for a map `obj` that is not a Tree (any key / value sizes, any iteration order, duplicates allowed),
+    * `new(Tree, K, V, …)` with an odd number of arguments (FormatError, no tree),
+    starting from nothing, for every lawful comparison and keys / values of any width — Strings (objects that own a buffer their
+    `Assign` reallocates) included: every operation is defined, the observations are those of the store of strictly sorted
+    association lists (an own key / value object denotes the key / value the map holds; KeyError from `get(t, k')` for an absent
+    `k'` leaves the map as it was), and every tree stays a valid red-black tree.
+    The model is run with the flag read from src/String.c (`CelloGen.Tree.stringAssignGuardsSelf`): the statement holds
+    because `String_Assign` returns when given its own buffer. The only hypothesis is `WellTypedA`: key / value objects OF THE
+    CALLER have the sizes of the tree's types (`cast` raises otherwise); the tree's own objects need none. -/
+theorem C03_own_objects_refine [Packed α] [Packed β] [LawfulPacked α] [LawfulPacked β]
+    (cmp : α → α → Ordering) [TransCmp cmp] (ops : List (AOp α β))
+    (hty : WellTypedA [] ops) :
+    ∃ st os, runA CelloGen.Tree.stringAssignGuardsSelf cmp [] ops = some (st, os) ∧
+      os = (Spec.runA cmp [] ops).2 ∧
+      absStore st = (Spec.runA cmp [] ops).1 ∧
+      AllValid cmp st := by
+  rw [C03_string_assign_current_source.2]
+  obtain ⟨st, os, h1, h2, h3⟩ := runA_refines (cmp := cmp) C03_current_source ops [] AllValid.nil hty
+  have h2' : Spec.runA cmp [] ops = (absStore st, os) := h2
+  exact ⟨st, os, h1, by rw [h2'], by rw [h2'], h3⟩
+
+/-- one step of the second layer, from any valid state -/
+theorem C03_own_objects_step [Packed α] [Packed β] [LawfulPacked α] [LawfulPacked β]
+    (cmp : α → α → Ordering) [TransCmp cmp] (st : Store (Tree α β)) (op : AOp α β)
+    (hv : AllValid cmp st) (hty : op.typed (sizeStore st)) :
+    ∃ st' o, stepA CelloGen.Tree.stringAssignGuardsSelf cmp st op = some (st', o) ∧
+      Spec.stepA cmp (absStore st) op = (absStore st', o) ∧ AllValid cmp st' ∧ tyStepA (sizeStore st) op = sizeStore st' := by
+  rw [C03_string_assign_current_source.2]
+  exact stepA_refines C03_current_source st op hv hty
+
+/-- the second layer for the comparison and the key / value kinds of the op files (Int, String, 24- and 40-byte structs) -/
+theorem C03_op_files_own_objects (ops : List (AOp Key Val)) (hty : WellTypedA [] ops) :
+    ∃ st os, runA CelloGen.Tree.stringAssignGuardsSelf Key.cmp [] ops = some (st, os) ∧ os = (Spec.runA Key.cmp [] ops).2 ∧
+      absStore st = (Spec.runA Key.cmp [] ops).1 ∧ AllValid Key.cmp st :=
+  C03_own_objects_refine Key.cmp ops hty
+
+/-- **Before the fix 744a45f** (`String_Assign` without the `val is s->val` test; the model run with the flag `false`):
+    on a valid Tree with String keys `set(t, K, 5)` with `K` the tree's own key object — the body of
+    `foreach (k in t) { set(t, k, …); }` — is undefined (`realloc` of the stored String's buffer, then `strcpy` from the
+    released block: ASan heap-use-after-free at String.c `strcpy`, reached from Tree.c `assign(Tree_Key(m, node), key)`), and on
+    a Tree with String values so is `set(t, "a", get(t, "a"))`; an own VALUE of ANOTHER node, an own Int object, and the same
+    calls with the test in place are defined and leave a valid tree holding the expected map. -/
+theorem C03_set_own_string_old_refuted :
+    ∃ m : Tree Key Val, Valid Key.cmp m ∧ m.abs = [(.s "b", .s "y"), (.s "a", .s "x")] ∧
+      m.setArgs false Key.cmp (.own (.s "a")) (.val (.s "z")) = none ∧
+      m.setArgs false Key.cmp (.val (.s "a")) (.own (.s "a")) = none ∧
+      (m.setArgs false Key.cmp (.val (.s "a")) (.own (.s "b"))).map (fun r => (r.1.abs, r.2))
+        = some ([(.s "b", .s "y"), (.s "a", .s "y")], .done) ∧
+      (m.setArgs true Key.cmp (.own (.s "a")) (.own (.s "a"))).map (fun r => (r.1.abs, r.2)) = some (m.abs, .done) ∧
+      (m.setArgs true Key.cmp (.own (.s "a")) (.val (.s "z"))).map (fun r => (r.1.abs, r.2))
+        = some ([(.s "b", .s "y"), (.s "a", .s "z")], .done) ∧
+      ∃ mi : Tree Key Val, Valid Key.cmp mi ∧
+        (mi.setArgs false Key.cmp (.own (.i 1)) (.own (.i 1))).map (fun r => (r.1.abs, r.2)) = some (mi.abs, .done) := by
+  refine ⟨⟨.node .B (.node .R .nil (.s "b") (.s "y") .nil) (.s "a") (.s "x") .nil, 2, 8, 8⟩, (validB_iff _).mp (by decide),
+    by decide, by decide, by decide, by decide, by decide, by decide,
+    ⟨.node .B .nil (.i 1) (.i 10) .nil, 1, 8, 8⟩, (validB_iff _).mp (by decide), by decide⟩
+
+/-- non-vacuity of the second layer: a history that walks a String → String tree setting each of its own keys to a new value
+    and to its own value, gives own key objects to get / mem / rem, fetches an absent value, assigns from a foreign map with
+    24-byte values and a duplicate key, and calls the odd-count constructor, is well typed and runs with these observations -/
+example :
+    let ops : List (AOp Key Val) :=
+      [.base (.new 0 8 8 [(.s "a", .s "x"), (.s "b", .s "y"), (.s "c", .s "zz")]),
+       .setA 0 (.own (.s "a")) (.val (.s "longer-than-before")), .setA 0 (.own (.s "b")) (.own (.s "b")),
+       .setA 0 (.val (.s "d")) (.own (.s "a")), .setA 0 (.val (.s "e")) (.own (.s "nope")), .setA 0 (.own (.s "nope")) (.val (.s "v")),
+       .getK 0 (.s "d"), .memK 0 (.s "c"), .remK 0 (.s "b"), .base (.iter 0),
+       .newOdd 1, .base (.len 1),
+       .assignMap 0 8 24 [(.i 3, .w 1 2 [3]), (.i 9, .w 4 5 [6]), (.i 3, .w 7 8 [9])], .base (.iter 0),
+       .setA 0 (.own (.i 9)) (.own (.i 3)), .base (.get 0 (.i 9))]
+    WellTypedA [] ops ∧
+    (runA CelloGen.Tree.stringAssignGuardsSelf Key.cmp [] ops).map (·.2) = some
+      [.done, .done, .done, .done, .err .KeyError, .noobj, .val (.s "longer-than-before"), .bool true, .done,
+       .items [(.s "d", .s "longer-than-before"), (.s "c", .s "zz"), (.s "a", .s "longer-than-before")] true,
+       .err .FormatError, .noobj,
+       .done, .items [(.i 9, .w 4 5 [6]), (.i 3, .w 7 8 [9])] true, .done, .val (.w 7 8 [9])] := by
+  refine ⟨wellTypedAB_sound _ _ (by decide), by decide⟩
+
+/-! ### the order on keys, instantiated with the code's comparisons -/
+
+/-- **Int keys.** For keys that are (or contain, `val`) a 64-bit integer compared by `Int_Cmp` — the function translated from
+    src/Num.c on every run, whose sign is the order of the two integers at ANY distance (also 2^31, 2^32 or 2^64 − 1 apart) —
+    the three tests `c < 0`, `c is 0`, `c > 0` of the descent loops are a lawful order, and every history of both layers
+    refines the ordered map. (With the subtract-and-truncate `Int_Cmp` this tree had before 1403e2f the keys 0 and 2^32 are
+    ONE key for a Tree: `C03_truncating_int_cmp_merges_keys`.) -/
+theorem C03_int_keys {κ : Type} [Packed κ] [Packed β] [LawfulPacked κ] [LawfulPacked β] (val : κ → BitVec 64)
+    (ops : List (AOp κ β)) (hty : WellTypedA [] ops) :
+    (∀ a b : BitVec 64, (Cello.Cmp.intCmp a b < 0 ↔ a.toInt < b.toInt) ∧ (Cello.Cmp.intCmp a b = 0 ↔ a.toInt = b.toInt) ∧
+      (0 < Cello.Cmp.intCmp a b ↔ b.toInt < a.toInt)) ∧
+    ∃ st os, runA CelloGen.Tree.stringAssignGuardsSelf (fun a b => ordOf Cello.Cmp.intCmp (val a) (val b)) [] ops = some (st, os) ∧
+      os = (Spec.runA (fun a b => ordOf Cello.Cmp.intCmp (val a) (val b)) [] ops).2 ∧
+      absStore st = (Spec.runA (fun a b => ordOf Cello.Cmp.intCmp (val a) (val b)) [] ops).1 ∧
+      AllValid (fun a b => ordOf Cello.Cmp.intCmp (val a) (val b)) st := by
+  haveI := transCmp_of_lawful Cello.Cmp.intCmp intCmp_lawful val
+  exact ⟨intCmp_sign, C03_own_objects_refine _ ops hty⟩
+
+theorem C03_truncating_int_cmp_merges_keys :
+    ordOf Cello.Cmp.intCmpTruncating (0 : BitVec 64) (BitVec.ofNat 64 (2^32)) = .eq ∧
+    ordOf Cello.Cmp.intCmp (0 : BitVec 64) (BitVec.ofNat 64 (2^32)) = .lt :=
+  intCmpTruncating_merges_keys
+
+/-- **String keys.** For keys compared by `strcmp` of their character buffers (`bytes`; `Cello.Cmp.bytesCmp`: unsigned bytes,
+    a proper prefix is smaller, bytes above 127 are large — what `String_Cmp` computes, tied to the text of src/String.c by
+    C02's `StringCmpIsStrcmp` and C09) every history of both layers refines the ordered map. -/
+theorem C03_string_keys {κ : Type} [Packed κ] [Packed β] [LawfulPacked κ] [LawfulPacked β] (bytes : κ → List UInt8)
+    (ops : List (AOp κ β)) (hty : WellTypedA [] ops) :
+    (∀ a b : List UInt8, Cello.Cmp.bytesCmp a b < 0 ↔ a < b) ∧
+    ∃ st os, runA CelloGen.Tree.stringAssignGuardsSelf (fun a b => ordOf Cello.Cmp.bytesCmp (bytes a) (bytes b)) [] ops = some (st, os) ∧
+      os = (Spec.runA (fun a b => ordOf Cello.Cmp.bytesCmp (bytes a) (bytes b)) [] ops).2 ∧
+      absStore st = (Spec.runA (fun a b => ordOf Cello.Cmp.bytesCmp (bytes a) (bytes b)) [] ops).1 ∧
+      AllValid (fun a b => ordOf Cello.Cmp.bytesCmp (bytes a) (bytes b)) st := by
+  haveI := transCmp_of_lawful Cello.Cmp.bytesCmp Cello.Cmp.bytesCmp_strict.toLawfulCmpOn bytes
+  exact ⟨Cello.Cmp.bytesCmp_lt_iff, C03_own_objects_refine _ ops hty⟩
 
 /-! ### fixed defect: self-assignment (a3140e4) -/
 
@@ -338,10 +468,10 @@ example :
     `if (self is obj) { return; }` of the code that exists now) keeps the tree as it is — which is what lets
     `C03_refines_ordered_map` hold for histories with self-assignment. -/
 theorem C03_self_assign_old_refuted :
-    ∃ m : Tree Key Val, Valid Key.cmp m ∧ m.abs = [(.i 2, [20]), (.i 1, [10])] ∧
+    ∃ m : Tree Key Val, Valid Key.cmp m ∧ m.abs = [(.i 2, .i 20), (.i 1, .i 10)] ∧
       (Tree.assignSelfOld Key.cmp m).map (fun r => (r.1.abs, r.1.len)) = some ([], 0) ∧
       (Tree.assignSelf Key.cmp m).map (·.1) = some m := by
-  refine ⟨⟨.node .B .nil (.i 2) [20] (.node .R .nil (.i 1) [10] .nil), 2, 8, 8⟩, (validB_iff _).mp (by decide), by decide,
+  refine ⟨⟨.node .B .nil (.i 2) (.i 20) (.node .R .nil (.i 1) (.i 10) .nil), 2, 8, 8⟩, (validB_iff _).mp (by decide), by decide,
     by decide, rfl⟩
 
 end Cello.RB
